@@ -133,7 +133,7 @@ def rand_runqueue(rnd, sid):
         ctrs.append({"prio": p, "state": rnd.choice(["Queued", "Locked", "Locked"]), "type": rnd.randint(1, nt),
                      "inrun": rnd.choice(["no"] * 8 + ["live", "exited"]), "late": rnd.random() < 0.05})
     pool = {"idle": [rnd.choice([0, 0, 1, 2]) for _ in range(nt)],
-            "boot": [rnd.choice([0, 0, 1, 2]) for _ in range(nt)],
+            "boot": [rnd.choice([0, 0, 1, 2, 3, 4]) for _ in range(nt)],
             "qleft": rnd.choice([0, 0, 1, 2, 9, 9]),
             "createok": [rnd.random() < 0.8 for _ in range(nt)],
             "startok": [rnd.random() < 0.85 for _ in range(nt)]}
@@ -145,6 +145,7 @@ def part_b(ctx, rnd):
     pkg = "lib/dispatchcloud/scheduler"
     if ctx.thorough:
         ctx.tlc(SD, "RunQueue", "MC_RunQueue_big.cfg", timeout=3000, label="(b) exhaustive: refinement, <= 4 containers")
+        ctx.tlc(SD, "RunQueue", "MC_RunQueue_b3.cfg", timeout=3000, label="(b) exhaustive: refinement, <= 3 containers, up to 3 booting workers per type")
         ctx.tlc(SD, "RunQueue", "MC_RunQueue_edge.cfg", timeout=1800, label="(b) exhaustive: running/late/priority 0, termination")
         scns, _ = ctx.gen(SD, "RunQueue", "Gen_RunQueue_big.cfg", timeout=3000, label="(b) snapshot emission <= 3 containers, priorities 1-2")
         s2, _ = ctx.gen(SD, "RunQueue", "Gen_RunQueue_edge.cfg", timeout=1800, label="(b) snapshot emission, edge cases")
@@ -152,7 +153,7 @@ def part_b(ctx, rnd):
             s["id"] += 10 ** 7
         scns += s2
     else:
-        ctx.tlc(SD, "RunQueue", "MC_RunQueue.cfg", timeout=900, label="(b) exhaustive: refinement, <= 2 containers, full pool")
+        ctx.tlc(SD, "RunQueue", "MC_RunQueue.cfg", timeout=900, label="(b) exhaustive: refinement, <= 2 containers, full pool incl. 3 booting workers of a type")
         scns, _ = ctx.gen(SD, "RunQueue", "Gen_RunQueue.cfg", timeout=900, label="(b) snapshot emission <= 2 containers")
     if not scns:
         raise vlib.InfraError("RunQueue Gen emitted nothing")
@@ -167,8 +168,15 @@ def part_b(ctx, rnd):
                 k += 1
     ctx.extra["b_snapshots_emitted"] = len(scns)
     if not ctx.thorough and len(scns) > 8000:
+        # quick tier: every snapshot in which a worker becomes idle mid-pass and at least two starts are
+        # attempted afterwards or around it (the shapes that exercise the dontstart latch), up to 4000,
+        # plus a seeded sample of the rest
         rnd.shuffle(scns)
-        scns = sorted(scns[:8000], key=lambda s: s["id"])
+        hot = [s for s in scns if s["ready"] and sum(1 for e in s["log"] if e["op"] == "start") >= 2][:4000]
+        hid = {s["id"] for s in hot}
+        rest = [s for s in scns if s["id"] not in hid][:8000 - len(hot)]
+        ctx.extra["b_quick_latch_shapes"] = len(hot)
+        scns = sorted(hot + rest, key=lambda s: s["id"])
     nmodel = len(scns)
     nrand = 30000 if ctx.thorough else 2000
     for i in range(nrand):
